@@ -97,8 +97,8 @@ class Recorder:
                 prop=prop or self.prop, monitor=monitor, key=key, msg=msg,
                 case=jsonable(self.case), info=jsonable(info)))
 
-    def check(self, monitor, cond, key, msg='', prop=None, **info):
-        if bool(cond):
+    def check(self, monitor, holds, key, msg="", prop=None, **info):
+        if bool(holds):
             self.ok(monitor)
             return True
         self.fail(monitor, key, msg, prop=prop, **info)
